@@ -577,7 +577,7 @@ void worker_loop(int wid, int level, int maxlevel, int maxworkers, Bounds B, con
                 // total > level+1 cannot happen: one point adds at most cost 1
             }
         }
-        __sync_fetch_and_add(&S->tree_nodes, nodes);
+        __sync_fetch_and_add(&S->tree_nodes, nodes + fr);
         __sync_fetch_and_add(&S->frontier_items, fr);
     }
     kill_runner();
